@@ -264,23 +264,25 @@ Example C11_nonvacuous_refs :
 Proof. vm_compute. repeat split. Qed.
 
 
-(** a session that meets every hypothesis of theorem 6: values with inner whitespace, a tab
-    continuation, comment lines between values; "c" has a comment line before it and none after
-    (unlinked to the right), "a" is the first value (to the right), "e" the last (to the left);
-    an absent value, a replace, appends; the close succeeds and the written text is as expected
+(** a session that meets every hypothesis of theorems 6 and 8: values with inner whitespace, a
+    tab continuation, comment lines between values.  "c" and later "e" have a comment line
+    before them and none after (unlinked together with what follows, up to the next value;
+    the comment line stays), "a" is the first value (likewise), "d" finally has comment lines
+    on both sides (unlinked together with what precedes it, back to the previous value); an
+    absent value, a replace, appends.  The close succeeds and the written text is as expected
     (the implementation writes the same text) *)
 Example C11_nonvacuous_edit_comma :
-  let v := dec " a, b (>= 1),\00000a# about c\00000a\000009c,\00000a# about d\00000a d , e\00000a" in
+  let v := dec " a, b (>= 1),\00000a# about c\00000a\000009c, d ,\00000a# last\00000a e\00000a" in
   let os := [ORemove (dec "c"); OAppend (dec "f g"); ORemove (dec "zz");
              OReplace (dec "b (>= 1)") (dec "x | y"); ORemove (dec "a"); ORemove (dec "e");
-             OAppend (dec "#h")] in
+             OAppend (dec "#h"); ORemove (dec "d")] in
   let r := run_session Comma (dec "X-List") v os in
   value_ok v = true /\ closed_value v = true /\ ends_on_comment v = false /\ name_ok (dec "X-List") = true
   /\ forallb edit_op_c os = true
   /\ split_spec true v = [dec "a"; dec "b (>= 1)"; dec "c"; dec "d"; dec "e"]
-  /\ snd (l_run os (split_spec true v)) = [dec "x | y"; dec "d"; dec "f g"; dec "#h"]
+  /\ snd (l_run os (split_spec true v)) = [dec "x | y"; dec "f g"; dec "#h"]
   /\ sr_close r = None
-  /\ sr_value r = dec " x | y,\00000a# about d\00000a d, f g, #h\00000a".
+  /\ sr_value r = dec " x | y ,\00000a# last\00000a f g, #h\00000a".
 Proof. vm_compute. repeat split. Qed.
 
 (** references on a comma list: snapshot, write through the second, remove through the first,
